@@ -102,8 +102,10 @@ pub fn identity(sec_rows: &[HRow], opening: Option<(Rat, Rat)>, tool: &[NRow], o
 }
 
 pub fn check(case: &LedgerCase, obs: &mut Obs) -> Verdict {
-    let files = case.files();
-    let csv = &files[0].1;
+    // a third of the histories are handed over as two or three files (same row order)
+    let files = case.files_maybe_split();
+    let csv_joined: String = if files.len() == 1 { files[0].1.clone() } else { files.iter().map(|(n, t)| format!("--- {n}\n{t}")).collect() };
+    let csv = &csv_joined;
     let res = match run_deltas(&files, &case.run_opts()) {
         Ok(r) => r,
         Err(RunErr::Panic(p)) => return classify_panic(&p, csv),
